@@ -74,9 +74,9 @@ def _cls(spec):
     return ":int-names-vs-numbers" if _int_name_clash(spec) else ""
 
 
-# failure classes that have nothing to do with the state-name style of the model
-_CLASS_INDEPENDENT = ("auxiliary-columns", "evidence-argument-mutated", "no-start-state", "state-numbers-not-names", "latents-not-dropped",
-                      "partial_samples:no-evidence", "partial_samples:named-states")
+# failure classes that the name/number confusion can produce (wrong column picked, consequently impossible rows / NaN kernels)
+_CLASS_DEPENDENT = ("weights", "_weight", "kernel", "zero-probability", "raised", "by-number")
+_CLASS_INDEPENDENT = ("partial_samples:named-states",)
 
 
 def _classed(check):
@@ -98,7 +98,8 @@ def _classed(check):
             if not any("/pgmpy/" in l for l in lines[-6:]):
                 raise
             return {"key": f"raised:{type(e).__name__}{cls}", "what": f"real code raised {type(e).__name__}: {e}"}
-        if isinstance(r, dict) and cls and cls not in r["key"] and not any(t in r["key"] for t in _CLASS_INDEPENDENT):
+        if isinstance(r, dict) and cls and cls not in r["key"] and any(t in r["key"] for t in _CLASS_DEPENDENT) \
+                and not any(t in r["key"] for t in _CLASS_INDEPENDENT):
             r["key"] += cls
         return r
 
